@@ -110,3 +110,43 @@ pub fn set_decode_chunk_size(size: usize) {
 pub(crate) fn decode_chunk_size() -> usize {
     DECODE_CHUNK_SIZE.load(std::sync::atomic::Ordering::SeqCst)
 }
+
+/// Protocol event trace of the decoder progress publication (loom build only): the model
+/// checker of the abstract protocol replays these traces against its model.
+#[cfg(jubako_verif_loom)]
+pub mod trace {
+    use std::sync::atomic::{AtomicBool, Ordering};
+    use std::sync::Mutex;
+
+    /// (thread tag, event code, a, b)
+    pub type Event = (u8, u8, usize, usize);
+
+    static ENABLED: AtomicBool = AtomicBool::new(false);
+    static LOG: Mutex<Vec<Event>> = Mutex::new(Vec::new());
+
+    loom::thread_local! {
+        static TAG: std::cell::Cell<u8> = std::cell::Cell::new(255);
+    }
+
+    /// Tag of the events emitted by the current loom thread (255: not set, the decoder).
+    pub fn set_thread_tag(tag: u8) {
+        TAG.with(|t| t.set(tag));
+    }
+
+    pub fn enable(on: bool) {
+        ENABLED.store(on, Ordering::SeqCst);
+    }
+
+    /// Record an event. Only one loom thread runs at a time and switches happen at loom's
+    /// synchronisation operations only: the order of the log is the order of execution.
+    pub fn emit(code: u8, a: usize, b: usize) {
+        if ENABLED.load(Ordering::Relaxed) {
+            let tag = TAG.with(|t| t.get());
+            LOG.lock().unwrap().push((tag, code, a, b));
+        }
+    }
+
+    pub fn take() -> Vec<Event> {
+        std::mem::take(&mut *LOG.lock().unwrap())
+    }
+}
